@@ -113,6 +113,33 @@ def run_case(case, ctx):
             except Exception as e:
                 ctx.violation("accepted-no-table:%d" % n, "magic %d (%s) loads but has no version/opcode table: %r"
                               % (n, X.magicint2version.get(n), e))
+                continue
+            # the other public routes from a (version, variant) to the table: the same table must come out
+            name = X.magicint2version.get(n, "")
+            # the implementation a magic belongs to: the registry name; magic 48 is registered under a CPython alpha name
+            # but is the PyPy 3.2 magic (is_pypy), so the loader's flag counts as well
+            variant = "pypy" if ("pypy" in name or is_pypy(n, "<c08>")) else ("Graal" if "Graal" in name else None)
+            if "pypy" in name and not is_pypy(n, "<c08>"):
+                ctx.violation("registered-pypy-not-flagged:%d" % n, "magic %d is registered as %s but load.is_pypy() says it is not PyPy" % (n, name))
+            for route in ("get_opcode_module", "make_std_api"):
+                ctx.count("table_routes")
+                try:
+                    if route == "get_opcode_module":
+                        from xdis.op_imports import get_opcode_module
+
+                        t2 = get_opcode_module(tuple(vt), variant) if variant else get_opcode_module(tuple(vt))
+                        om = t2.opmap
+                    else:
+                        import xdis.std
+
+                        api = xdis.std.make_std_api(tuple(vt), variant) if variant else xdis.std.make_std_api(tuple(vt))
+                        om = api.opmap
+                    if variant != "Graal" and dict(om) != dict(opc.opmap):
+                        ctx.violation("table-route-differs:%s:%d" % (route, n), "magic %d (%s): %s(%r, %r) gives another table than disasm.get_opcode"
+                                      % (n, name, route, tuple(vt), variant))
+                except Exception as e:
+                    ctx.violation("table-route-raises:%s:%s:%d" % (route, type(e).__name__, n), "magic %d (%s): %s(%r, %r) raised %r"
+                                  % (n, name, route, tuple(vt), variant, e))
     elif k == "registry":
         m, v, tag = case["row"]
         v = tuple(v)
